@@ -317,7 +317,7 @@ def random_case(rnd, shape_paths):
             if any(e["p"][:1] == ["items"] for e in cfg):
                 containers.append(["items", "#"])
             pos = rnd.choice(containers)
-            name = rnd.choice([["zzq"], ["zzq+"], ["zzq", "deep"], ["zzq", "deep", "er"], ["Zzq"], ["zzq_1"], ["alph"], ["epoch"], ["lr_dec"], ["xva"]])
+            name = rnd.choice([["zzq"], ["zzq+"], ["zzq", "deep"], ["zzq", "deep", "er"], ["Zzq"], ["zzq_1"], ["alph"], ["epoch"], ["lr_dec"], ["xva"], ["__note__"], ["_zz"], ["__zz"]])
             cfg = [e for e in cfg if e["p"] != pos + name] + [{"p": pos + name, "v": "emptymap" if rnd.random() < 0.15 and not name[-1].endswith("+") else "1"}]
             muts.append(["foreign", pos, name])
         else:
@@ -335,7 +335,7 @@ def random_case(rnd, shape_paths):
 
 
 # ---------------------------------------------------------------- random SHAPES (beyond the one rich shape of MC_Validate)
-NAMES = ["alpha", "beta", "gamma", "delta", "eps", "zeta", "eta", "theta", "iota", "kappa"]
+NAMES = ["alpha", "beta", "gamma", "delta", "eps", "zeta", "eta", "theta", "iota", "kappa", "_tok", "_priv"]   # names may start with an underscore
 
 
 def random_shape(rnd):
@@ -357,6 +357,10 @@ def random_shape(rnd):
                 out[n] = {"t": "dict"}
             else:
                 out[n] = {"t": "leaf", "req": rnd.random() < 0.4, "str": rnd.random() < 0.3}
+            if n.startswith("_") and out[n]["t"] == "leaf" and "group" not in allow:
+                out[n]["req"] = True   # in a signature an OPTIONAL parameter named _x is private (not offered): only required ones are keys
+            elif n.startswith("_") and out[n]["t"] != "leaf":
+                out[n] = {"t": "leaf", "req": True, "str": False}
         return out
 
     tree = {"children": kids(0, ("group", "dc", "cls", "listdc", "dict")), "subs": None}
@@ -501,7 +505,7 @@ def random_config(rnd, tree, nodes):
             containers += [p + ("init_args",) for p, n in by.items() if n["kind"] == "cls" and any(tuple(e["p"][: len(p)]) == p for e in cfg)]
             pos = rnd.choice(containers)
             sibs = [q[-1] for q in by if q[: len(pos)] == pos and len(q) == len(pos) + 1]
-            name = rnd.choice([["zzq"], ["zzq+"], ["zzq", "deep"], ["Zzq"], [rnd.choice(sibs) + "x"] if sibs else ["zzq"]])
+            name = rnd.choice([["zzq"], ["zzq+"], ["zzq", "deep"], ["Zzq"], [rnd.choice(sibs) + "x"] if sibs else ["zzq"], ["__note__"], ["_zz"], ["__comment__", "deep"]])
             cfg = [e for e in cfg if e["p"] != list(pos) + name] + [{"p": list(pos) + name, "v": "1"}]
             muts.append(["foreign", list(pos), name])
         else:
